@@ -91,6 +91,8 @@ fn gcd_special(numer: i128, denom_exp: u32) -> i128 {
     #[allow(clippy::cast_possible_truncation)]
     let mut v = ten_pow(denom_exp as u8) >> denom_exp;
     while v != 0 {
+        #[cfg(feature = "verif-hooks")]
+        fpdec_core::verif::hit(fpdec_core::verif::GCD_LOOP);
         v >>= v.trailing_zeros();
         if u > v {
             mem::swap(&mut u, &mut v);
